@@ -15,6 +15,30 @@ def load_tables():
     return json.load(open(os.path.join(common.BUILD, "tables.json")))
 
 
+class Jumbo(bytes):
+    """payload of a jumbo event (the data that follows the 4-byte size)"""
+
+
+_GID_CACHE = {}
+
+
+def gids(build, labels):
+    """label -> gid computed by the real task_get_type_gid (harness/gid.c)"""
+    need = [l for l in labels if l not in _GID_CACHE]
+    if need:
+        exe = os.path.join(common.BUILD, "harness", "gid-" + build.tree)
+        if not os.path.exists(exe):
+            common.cc_harness(exe, [os.path.join(common.VERIF, "harness", "gid.c")], build, extra=build.libs_emu)
+        out = common.batch(exe, [l.encode("latin1").hex() or "" for l in need])
+        for l, o in zip(need, out):
+            _GID_CACHE[l] = int(o)
+    return {l: _GID_CACHE[l] for l in labels}
+
+
+def task_label(typeid, label):
+    return label if label else "(unlabeled task type %d)" % typeid
+
+
 class Scenario:
     def __init__(self):
         self.looms = {}        # name -> list of (index, phyid)
@@ -24,6 +48,7 @@ class Scenario:
         self.events = []       # (thread position, clock, mcv str, payload bytes)
         self.lint = False
         self.extra_meta = {}   # thread position -> dict of dotted keys
+        self.gid = {}          # task type label -> gid (from the real task_get_type_gid)
 
     # ---- ordering rules of system.c
     def loom_order(self):
@@ -57,8 +82,9 @@ class Scenario:
                 first_in_loom[t["loom"]] = pos
                 cpus = self.looms[t["loom"]]
             meta = trace.thread_meta(t["tid"], t["pid"], t["loom"], app_id=t.get("app", 1), require=req, cpus=cpus,
-                                     extra=self.extra_meta.get(pos))
-            evs = [trace.ev_bytes(mcv, clk, payload) for (p, clk, mcv, payload) in self.events if p == pos]
+                                     rank=t.get("rank"), nranks=t.get("nranks"), extra=self.extra_meta.get(pos))
+            evs = [trace.ev_bytes(mcv, clk, jumbo=bytes(payload)) if isinstance(payload, Jumbo) else trace.ev_bytes(mcv, clk, payload)
+                   for (p, clk, mcv, payload) in self.events if p == pos]
             tr.add_thread(t["loom"], t["pid"], t["tid"], meta, evs)
         tr.write(root)
 
@@ -70,7 +96,8 @@ class Scenario:
         out = []
         for gi in range(len(self.threads)):
             t = self.threads[inv[gi]]
-            out.append("T %d %d %d" % (t["tid"], t["pid"], lo.index(t["loom"])))
+            out.append("T %d %d %d %d %d" % (t["tid"], t["pid"], lo.index(t["loom"]), t.get("app", 1),
+                                             t["rank"] if t.get("rank") is not None else -1))
         for (li, idx, virt) in self.cpu_table():
             out.append("C %d %d %d" % (1 if virt else 0, li, idx))
         out.append("L %d" % (1 if self.lint else 0))
@@ -78,13 +105,20 @@ class Scenario:
         # events in the merged order the emulator uses: by clock, ties by stream order (relpath) - the generator
         # keeps clocks of different threads distinct, so plain sort by clock is exact
         for (p, clk, mcv, payload) in sorted(self.events, key=lambda e: e[1]):
-            out.append("R %d %d %d %d %d %s" % (clk, g[p], ord(mcv[0]), ord(mcv[1]), ord(mcv[2]), payload.hex() if payload else "-"))
+            if isinstance(payload, Jumbo):
+                full = struct.pack("<I", len(payload)) + bytes(payload)
+                typeid = struct.unpack("<I", bytes(payload[:4]).ljust(4, b"\0"))[0]
+                label = bytes(payload[4:]).split(b"\0")[0].decode("latin1")
+                aux = self.gid.get(task_label(typeid, label), 0)
+                out.append("R %d %d %d %d %d %s 1 %d" % (clk, g[p], ord(mcv[0]), ord(mcv[1]), ord(mcv[2]), full.hex(), aux))
+            else:
+                out.append("R %d %d %d %d %d %s" % (clk, g[p], ord(mcv[0]), ord(mcv[1]), ord(mcv[2]), payload.hex() if payload else "-"))
         out.append("end")
         return out
 
     def describe(self):
         return {"looms": self.looms, "threads": self.threads, "enabled": self.enabled, "lint": self.lint,
-                "events": [(p, c, m, pl.hex()) for (p, c, m, pl) in self.events]}
+                "events": [(p, c, m, ("J:" if isinstance(pl, Jumbo) else "") + pl.hex()) for (p, c, m, pl) in self.events]}
 
 
 def i32(x):
